@@ -66,11 +66,15 @@ def pack_field(ip, code, v):
             return t
         t = z3.Unit(z3.Int2BV(ops.term(v, 'int'), 8))
         ops.set_len(t, 1)
+        ops.PACKED_BYTE[z3.simplify(t).get_id()] = (code, ops.term(v, 'int'))
+        ops._KEEP.append(z3.simplify(t))
         return t
     if code == 'b':
         x = ops.term(v, 'int')
         t = z3.Unit(z3.Int2BV(z3.If(x < 0, x + 256, x), 8))
         ops.set_len(t, 1)
+        ops.PACKED_BYTE[z3.simplify(t).get_id()] = (code, x)
+        ops._KEEP.append(z3.simplify(t))
         return t
     x = ops.term(v, 'real' if code in 'fd' else 'int')
     t = pk_fn(code)(x)
@@ -89,6 +93,9 @@ def pack_field(ip, code, v):
 
 def unpack_field(ip, code, t):
     size, lo, hi = FIELD[code]
+    pb = ops.PACKED_BYTE.get(z3.simplify(t).get_id())
+    if pb is not None and pb[0] == code and code in 'Bb':
+        return ops.concretize(Sym(pb[1], 'int'))        # unpack(pack(v)) = v for a value that passed the range check on this path
     if code in 'B?':
         r = z3.BV2Int(t[0])
         if code == '?':
@@ -99,6 +106,9 @@ def unpack_field(ip, code, t):
         r = z3.BV2Int(t[0])
         return ops.concretize(Sym(z3.If(r >= 128, r - 256, r), 'int'))
     t = z3.simplify(t)
+    if z3.is_app(t) and t.decl().name() == 'pk_' + code and code not in 'fd':
+        # unpack(pack(v)) = v, applied as a rewrite (v passed the range check when it was packed)
+        return ops.concretize(Sym(t.children()[0], 'int'))
     r = upk_fn(code)(t)
     if code in 'fd':
         if code == 'f':
@@ -497,3 +507,86 @@ def _ecdh_client(ip, priv, pub, salt):
     ip.ctx.assume(z3.Length(key) == 16)
     ops.set_len(key, 16)
     return Sym(key, 'bytes')
+
+
+# ------------------------------------------------------------------------------------------ io.BytesIO
+class BytesIOVal:
+    """io.BytesIO: a byte buffer and a position.  write() appends at the position when it is at the end (the only use in
+    the repository); read(n) returns at most the remaining bytes (all of them for n < 0 / None): never more than the input."""
+    def __init__(self, ip, initial=None):
+        self.buf = initial if initial is not None else b''
+        self.pos = 0
+        self.reads = 0
+
+    def remaining_term(self):
+        t = ops.term(self.buf)
+        return t
+
+    def pv_getattr(self, ip, name):
+        m = getattr(self, 'm_' + name, None)
+        if m is None:
+            ip.ctx.raise_exc('AttributeError', name)
+        return Builtin('BytesIO.' + name, m)
+
+    def m_write(self, ip, data):
+        used(ip, 'io.BytesIO: write appends at the end; read(n) returns at most the remaining bytes; tell/getvalue/seek')
+        if ops.pytype(data) != 'bytes':
+            ip.ctx.raise_exc('TypeError', 'a bytes-like object is required')
+        n = ops.bytes_len(self.buf)
+        if not ip.ctx.branch(ops.compare('Eq', self.pos, n)):
+            raise Unsupported('BytesIO.write in the middle of the buffer')
+        if isinstance(self.buf, bytes) and isinstance(data, bytes):
+            self.buf = self.buf + data
+        else:
+            self.buf = ops.bytes_concat([self.buf, data])
+        self.pos = ops.bytes_len(self.buf)
+        return ops.bytes_len(data)
+
+    def m_read(self, ip, n=None):
+        used(ip, 'io.BytesIO: write appends at the end; read(n) returns at most the remaining bytes; tell/getvalue/seek')
+        self.reads += 1
+        total = ops.bytes_len(self.buf)
+        if n is None:
+            hi = total
+        else:
+            if ops.pytype(n) not in ('int', 'bool'):
+                ip.ctx.raise_exc('TypeError', 'integer argument expected')
+            c = ops.const_int(n)
+            if c is not None:
+                hi = total if c < 0 else ops.binop('Add', self.pos, c, ip.ctx)
+            else:
+                if ip.ctx.branch(ops.compare('Lt', n, 0)):
+                    hi = total
+                else:
+                    hi = ops.binop('Add', self.pos, n, ip.ctx)
+        buf = self.buf if isinstance(self.buf, Sym) else Sym(ops.term(self.buf), 'bytes')
+        if isinstance(self.buf, bytes) and ops.const_int(self.pos) is not None and ops.const_int(hi) is not None:
+            r = self.buf[ops.const_int(self.pos):ops.const_int(hi)]
+        else:
+            r = ops.getitem(buf, slice(self.pos, hi), ip.ctx)
+        self.pos = ops.binop('Add', self.pos, ops.bytes_len(r), ip.ctx)
+        return ops.concretize_bytes(r) if isinstance(r, Sym) else r
+
+    def m_tell(self, ip):
+        return self.pos
+
+    def m_getvalue(self, ip):
+        return self.buf
+
+    def m_seek(self, ip, pos, whence=0):
+        if ops.const_int(whence) != 0:
+            raise Unsupported('BytesIO.seek whence')
+        self.pos = pos
+        return pos
+
+    def m_close(self, ip):
+        return None
+
+
+def _bytesio_ctor(ip, initial=None):
+    if initial is not None and ops.pytype(initial) != 'bytes':
+        ip.ctx.raise_exc('TypeError', 'a bytes-like object is required')
+    return BytesIOVal(ip, initial)
+
+
+_lib._Registry.modules['io'] = {'BytesIO': Builtin('io.BytesIO', _bytesio_ctor)}
